@@ -60,6 +60,21 @@ def is_int32_expr(f, e, depth=0):
             return is_int32_expr(f, e.func.value, depth + 1)
         if last == 'broadcast_to' and e.args:
             return is_int32_expr(f, e.args[0], depth + 1)
+        # a helper of the same module / class: what it returns
+        tgt = None
+        if isinstance(e.func, ast.Name):
+            tgt = f.module.functions.get(e.func.id)
+        elif isinstance(e.func, ast.Attribute) and isinstance(e.func.value, ast.Name) and f.cls is not None and \
+                e.func.value.id in ('self', 'cls', f.cls.name):
+            tgt = f.cls.find_method(e.func.attr)
+        if tgt is not None and tgt is not f:
+            rets = [r for r in ast.walk(tgt.node) if isinstance(r, ast.Return) and r.value is not None]
+            if rets and not isinstance(rets[0].value, ast.Tuple):
+                rs = [is_int32_expr(tgt, r.value, depth + 1) for r in rets]
+                if all(x is True for x in rs):
+                    return True
+                if any(x is False for x in rs):
+                    return False
         return None
     if isinstance(e, ast.Subscript):
         return is_int32_expr(f, e.value, depth + 1)
@@ -193,6 +208,8 @@ def dtypes(ctx):
     for (f, n, v, kind) in headers_dict_stores(P, G):
         if kind == 'item':
             r = is_int32_expr(f, v)
+            if r is None and isinstance(v, ast.Name):
+                r = _from_method_return(P, G, f, v.id)      # one of the arrays a helper returns as a tuple
             if r is True:
                 ctx.ok('C04.1', f, n, 'stored array is int32')
             else:
